@@ -308,3 +308,120 @@ def defaults(ctx, pid):
             ctx.ok(c, "trie/constants.py", "%s = %r" % (name, want if not isinstance(want, bytes) or len(want) < 8 else want.hex()), nontrivial=False)
         else:
             ctx.bad(c, "trie/constants.py", "%s is %r, expected %r (protocol constant)" % (name, got, want))
+
+
+# ---------------------------------------------------------------------------
+def _ident_ok(ctx, f, cmp_, i):
+    """is operand pair (left_i, right_i) of an `is` / `is not` comparison a legitimate identity test?"""
+    from ..model import Sentinel
+    ops = [cmp_.left] + list(cmp_.comparators)
+    a, b = ops[i], ops[i + 1]
+    for x, y in ((a, b), (b, a)):
+        if isinstance(x, ast.Constant) and (x.value is None or x.value is True or x.value is False or x.value is Ellipsis):
+            return True
+        if isinstance(x, ast.Name):
+            v = ctx.P.const(f.module, x.id)
+            if isinstance(v, Sentinel):
+                return True
+            # a class object compared with type(..)
+            if isinstance(y, ast.Call) and isinstance(y.func, ast.Name) and y.func.id == "type" and len(y.args) == 1:
+                if x.id in f.module.classes or x.id in f.module.imports or x.id in ("bytes", "int", "str", "tuple", "list", "dict", "bool"):
+                    return True
+    return False
+
+
+@rule("IDENT", ["C01", "C02", "C03", "C04", "C05", "C06", "C07", "C08", "C10", "C11", "C12", "C13", "C14", "C15", "C16", "C17", "C18"])
+def ident(ctx, pid):
+    """Identity comparisons: `is` / `is not` may only test None / True / False, a module-level sentinel
+    object() (db.DELETED) or a class against type(..).  `x is <bytes / int / tuple value>` depends on object
+    identity, which equal values read back from a db, decoded or recomputed do not share."""
+    from ..core import prop_scope
+    scope = prop_scope(pid)
+    n = 0
+    bad = []
+    for f in util.all_functions(ctx, include_tools=False):
+        if scope is not None and f.module.rel not in scope:
+            continue
+        if f.parent is not None:
+            continue  # nested defs are walked with their parent
+        for c_ in ast.walk(f.node):
+            if isinstance(c_, ast.Compare):
+                for i, op in enumerate(c_.ops):
+                    if isinstance(op, (ast.Is, ast.IsNot)):
+                        n += 1
+                        if not _ident_ok(ctx, f, c_, i):
+                            bad.append((f, c_))
+    for f, c_ in bad:
+        ctx.bad("identity-test:%s:%s" % (fkey(f), util.norm_src(c_)), f.loc(c_),
+                "`%s` compares object identity of values; equal bytes / ints that were decoded, read from the db or recomputed are not the same object (use == / !=)" % util.norm_src(c_))
+    if not bad:
+        ctx.ok("identity-tests", "trie/", "%d `is` / `is not` comparisons in scope, all against None / True / False / a sentinel object / a class" % n, nontrivial=bool(n))
+
+
+# (caller, callee, parameter) -> how the same-named, defaulted parameter must be passed on
+#   "same": the caller's own parameter, unchanged   "explicit": some explicit argument   "default": relying on the default is intended
+FWD = {
+    ("trie.binary:BinaryTrie._set", "trie.binary:BinaryTrie._set_kv_node", "if_delete_subtrie"): "same",
+    ("trie.binary:BinaryTrie._set", "trie.binary:BinaryTrie._set_branch_node", "if_delete_subtrie"): "same",
+    ("trie.binary:BinaryTrie._set_kv_node", "trie.binary:BinaryTrie._set", "if_delete_subtrie"): "same",
+    ("trie.binary:BinaryTrie._set_branch_node", "trie.binary:BinaryTrie._set", "if_delete_subtrie"): "same",
+    ("trie.branches:if_branch_valid", "trie.binary:BinaryTrie.__init__", "root_hash"): "same",
+    # the verifier trie starts empty; the claimed root is applied through at_root (TS5 checks that)
+    ("trie.hexary:HexaryTrie.get_from_proof", "trie.hexary:HexaryTrie.__init__", "root_hash"): "default",
+    ("trie.hexary:HexaryTrie._get_proof", "trie.hexary:HexaryTrie._get_proof", "proven_len"): "explicit",
+    ("trie.hexary:HexaryTrie._get_proof", "trie.hexary:HexaryTrie._get_proof", "last_proof"): "explicit",
+    ("trie.smt:SparseMerkleTree.from_db", "trie.smt:SparseMerkleTree.__init__", "key_size"): "same",
+    ("trie.smt:SparseMerkleTree.from_db", "trie.smt:SparseMerkleTree.__init__", "default"): "same",
+}
+FWD_PROPS = {"C12": "trie/binary.py", "C13": "trie/branches.py", "C03": "trie/hexary.py", "C14": "trie/smt.py", "C15": "trie/smt.py"}
+FWD_MIN = {"C12": 5, "C13": 1, "C03": 4, "C14": 2, "C15": 2}
+
+
+@rule("FWD", sorted(FWD_PROPS))
+def fwd(ctx, pid):
+    """A call from f to g that share a parameter name which g defaults: leaving the argument out silently
+    replaces the caller's value by the default (a recursion that forgets its mode flag).  Every such call site
+    passes the parameter explicitly; flags are forwarded unchanged."""
+    rel = FWD_PROPS[pid]
+    n = 0
+    for f in util.all_functions(ctx, include_tools=False):
+        if f.module.rel != rel:
+            continue
+        for c_ in ast.walk(f.node):
+            if not isinstance(c_, ast.Call):
+                continue
+            try:
+                tgs = ctx.R.resolve_call(c_, f, count=False)
+            except AnalysisError:
+                continue
+            for t in tgs:
+                if t.kind == "def":
+                    g = t.func
+                elif t.kind == "ctor" and getattr(t, "cls", None) is not None and hasattr(t.cls, "methods"):
+                    g = t.cls.methods.get("__init__")
+                else:
+                    g = None
+                if g is None:
+                    continue
+                dg = g.defaults()
+                common = [p for p in g.all_params() if p in f.all_params() and p not in ("self", "cls") and p in dg]
+                if not common:
+                    continue
+                skip = t.kind == "ctor" or (g.cls is not None and not isinstance(c_.func, ast.Name) and not g.is_static)
+                amap = ctx.E.bind_args(c_, g, skip_self=skip)
+                for p in common:
+                    n += 1
+                    mode = FWD.get((f.qual, g.qual, p), "explicit")
+                    a = amap.get(p)
+                    cst = "forward:%s->%s(%s)" % (fkey(f), fkey(g), p)
+                    if mode == "default":
+                        ctx.ok(cst, f.loc(c_), "relying on the default is intended here", nontrivial=False)
+                    elif a is None:
+                        ctx.bad(cst, f.loc(c_), "`%s` is called without `%s`: the caller's own `%s` is silently replaced by the default `%s`"
+                                % (util.norm_src(c_.func), p, p, ast.unparse(dg[p])))
+                    elif mode == "same" and not (isinstance(a, ast.Name) and a.id == p):
+                        ctx.bad(cst, f.loc(c_), "`%s` is passed as `%s`, expected the caller's own `%s` unchanged" % (p, util.norm_src(a), p))
+                    else:
+                        ctx.ok(cst, f.loc(c_), "`%s` is passed on as `%s`" % (p, util.norm_src(a)), nontrivial=False)
+    if n < FWD_MIN[pid]:
+        ctx.unsure("forward-instances:%s" % rel, rel, "only %d forwarding site(s) found, %d were confirmed by hand" % (n, FWD_MIN[pid]))
